@@ -16,7 +16,7 @@ pub fn run(tier: &str, seed: u64, out: &str) {
     let mut fails: Vec<serde_json::Value> = vec![];
     let mut total_calls = 0usize;
     let mut configs = vec![];
-    for threads in [2usize, 4, 8, 16] {
+    for threads in [8usize, 2, 4, 16] {
         let cc = Arc::new(Covercrypt::default());
         let (mut msk, _) = cc.setup().unwrap();
         {
@@ -252,7 +252,7 @@ pub fn run(tier: &str, seed: u64, out: &str) {
         "soft_kind_mismatch": 0, "matrix_cells": 0, "matrix_open": 0,
         "samples": [{"threads": configs, "iterations_per_configuration": iters}],
         "mismatches": [],
-        "extra": {"rule": format!("one shared Covercrypt instance used by 2, 4, 8 and 16 threads ({iters} iterations per configuration) for encapsulation, decapsulation (authorised and unauthorised), PKE encryption (with a policy written differently at every call) / decryption, header generation / decryption, key generation, rekey, refresh, prune on thread-local key objects, while two more threads draw through the public accessor Covercrypt::rng() in very short critical sections; then fresh instances whose very first uses race each other on 8 threads released together; every result is compared with what the call returns alone (round trips, None for unauthorised); a watchdog bounds the whole run; support for the part of C19 the model cannot exhibit; distinct = API calls made (each with fresh randomness)"),
+        "extra": {"rule": format!("one shared Covercrypt instance used by 8, 2, 4 and 16 threads (the contended configuration first) ({iters} iterations per configuration) for encapsulation, decapsulation (authorised and unauthorised), PKE encryption (with a policy written differently at every call) / decryption, header generation / decryption, key generation, rekey, refresh, prune on thread-local key objects, while two more threads draw through the public accessor Covercrypt::rng() in very short critical sections; then fresh instances whose very first uses race each other on 8 threads released together; every result is compared with what the call returns alone (round trips, None for unauthorised); a watchdog bounds the whole run; support for the part of C19 the model cannot exhibit; distinct = API calls made (each with fresh randomness)"),
             "exhaustive": false, "per_line": true, "oracle_failures": fails, "oracle_checked": total_calls, "campaign": "C19", "wall_s": t0.elapsed().as_secs_f64()},
     });
     std::fs::write(out, serde_json::to_string_pretty(&j).unwrap()).unwrap();
